@@ -71,6 +71,14 @@ package backends
 //@   ensures [success_means_the_store_accepted_this_upload] err == nil ==> sdkPuts == old(sdkPuts) + 1 && sdkLastPutOK
 //@   before_call PutObject#1 [unconditional_overwrite_of_the_given_key] arg2.IfNoneMatch == nil && arg2.IfMatch == nil && arg2.Bucket != nil && deref(arg2.Bucket) == bucket && arg2.Key != nil && deref(arg2.Key) == key
 
+// ... and an object is reported present only if the store answered the HEAD request for it successfully: a denied or
+// failed request is never "exists" (Cas.Write would skip the upload of a blob the remote does not have)
+//@ func (*AWSS3Adapter).ObjectExists(a, ctx, bucket, key) (r, err)
+//@   modifies sdkHeads, sdkLastHeadOK
+//@   ensures [present_only_if_the_store_said_so] sdkHeads == old(sdkHeads) + 1 && (r ==> sdkLastHeadOK && err == nil)
+//@   ensures [found_is_reported] sdkLastHeadOK ==> r && err == nil
+//@   before_call HeadObject#1 [the_given_key] arg2.Bucket != nil && deref(arg2.Bucket) == bucket && arg2.Key != nil && deref(arg2.Key) == key
+
 //@ func (*AWSS3Adapter).GetObject(a, ctx, bucket, key) (r, err)
 //@   modifies sdkGets, sdkLastGetOK
 //@   ensures [sdk_failure_is_a_failure] sdkGets == old(sdkGets) + 1 && (err == nil <==> sdkLastGetOK)
